@@ -490,3 +490,38 @@ class CorrelationRuleToDict(Contract):
 
     def frame_ok(self, I, inp, obj, name):
         return False
+
+
+@register
+class LogSourceToDict(Contract):
+    """SigmaLogSource.to_dict: category / product / service / definition where set, as text, and the custom attributes under their own
+    keys (as they were read) - not the source location, no nested `custom_attributes` entry"""
+    id = "C06.SigmaLogSource.to_dict"
+    target = "sigma.rule.logsource:SigmaLogSource.to_dict"
+    props = ("C06",)
+    cases = ("all", "category-only", "custom", "none-custom")
+
+    def args(self, I, case):
+        vals = {n: I.fresh(n, "str") for n in ("category", "product", "service", "definition")}
+        f = dict(vals) if case in ("all", "custom") else {"category": vals["category"], "product": None, "service": None, "definition": None}
+        cust = {"myattr": I.fresh("custom1", "str"), "other": SObj("Nested", {})} if case == "custom" else ({} if case == "none-custom" else None)
+        f["custom_attributes"] = cust
+        f["source"] = SObj("Location", {})
+        me = SObj(I.E.index.lookup("sigma.rule.logsource:SigmaLogSource"), f, lazy=True)
+        return {"self": me, "args": [], "vals": vals, "f": f, "cust": cust, "case": case}
+
+    def post(self, I, inp, r):
+        c = I.ctx
+        r = I.force(r) if not isinstance(r, dict) else r
+        want = [n for n in ("category", "product", "service", "definition") if inp["f"][n] is not None] + (list(inp["cust"]) if inp["cust"] else [])
+        ok = isinstance(r, dict) and list(r) == want
+        c.require(ok, f"exactly the keys {want}")
+        if ok:
+            for n in want:
+                if n in inp["vals"]:
+                    c.require(True if r[n] is inp["f"][n] else (r[n].t == inp["f"][n].t if isinstance(r[n], Sym) and r[n].kind == "str" else False), f"{n}: the attribute value as text")
+            if inp["cust"]:
+                c.require(all(r[k] is v for k, v in inp["cust"].items()), "custom attributes under their own keys, values as they are")
+
+    def frame_ok(self, I, inp, obj, name):
+        return False
